@@ -212,6 +212,47 @@ func (u *Unit) callResolved(s *State, c *ssa.CallCommon, callee *ssa.Function, n
 			return
 		}
 	}
+	// a closure of the function under verification handed to unknown code (filepath.Walk, ...) is an
+	// indirect recursive call: termination needs a variant, and there is none to check here
+	if u.fc != nil && u.fc.Sweep && site != nil && site.Parent() == u.fn {
+		for _, a := range args {
+			if cl, ok := s.closT[a.S]; ok && cl.fn == u.fn {
+				found := false
+				for _, dc := range u.fc.Clauses {
+					if dc.Kind != "decreases" || dc.Loop != 0 {
+						continue
+					}
+					found = true
+					// variant of the new closure: its captured variables are the bindings of cl
+					for i, fv := range cl.fn.FreeVars {
+						if i < len(cl.bindings) {
+							s.addrs[fv] = u.addrOf(s, cl.bindings[i])
+						}
+					}
+					newEnv := &Env{u: u, s: s, old: s, names: map[string]Term{}, fn: cl.fn, pkg: cl.fn.Pkg}
+					nv, err := newEnv.term(dc.Expr)
+					for _, fv := range cl.fn.FreeVars {
+						delete(s.addrs, fv)
+					}
+					if err != nil {
+						panic(abortUnit{fmt.Sprintf("%s:%d: %v", dc.File, dc.Line, err)})
+					}
+					oldEnv := u.bodyEnv(u.entry, u.fn)
+					ov, err := oldEnv.term(dc.Expr)
+					if err != nil {
+						panic(abortUnit{fmt.Sprintf("%s:%d: %v", dc.File, dc.Line, err)})
+					}
+					n := fmt.Sprintf("%s.indirect-recursion.%s#%d", labelWithFn(dc.Label, u.fnShort(u.fn)), shortCallee(name), u.ordinal(site))
+					u.oblige(s, n, dc.Props, "decreases", fmt.Sprintf("(and (<= 0 %s) (< %s %s))", nv.S, nv.S, ov.S), pos)
+				}
+				if !found {
+					n := fmt.Sprintf("C19.%s.terminates.indirect-recursion.%s#%d", u.fnShort(u.fn), shortCallee(name), u.ordinal(site))
+					u.oblige(s, n, []string{"C19"}, "decreases", "false", pos)
+					s.pc = s.pc[:len(s.pc)-1]
+				}
+			}
+		}
+	}
 	// unknown: havoc
 	u.frameClosed(s, name, site, pos)
 	if c == nil || !u.callIsPure(c) {
@@ -404,7 +445,39 @@ func (u *Unit) applyContract(s *State, fc *FuncContract, callee *ssa.Function, n
 		u.frameWrite(s, pt, flabel, ord, pos)
 	}
 	if !fc.Pure {
-		if mods := fc.modifies(); len(mods) > 0 {
+		if it := fc.Opts["modifies-iface-target"]; it != "" {
+			// the callee writes only the object behind the pointer boxed in interface parameter `it` (json.Unmarshal)
+			a, ok := names[it]
+			var ptr string
+			if ok {
+				if m := ifacePtrRe.FindStringSubmatch(a.S); m != nil {
+					ptr = m[1]
+				}
+			}
+			if ptr == "" {
+				if u.restricted() {
+					panic(abortUnit{"write set: calls " + name + " with an unknown target"})
+				}
+				u.havocHeaps(s, "call")
+				u.havocGhost(s)
+			} else {
+				pt := Term{S: ptr, Sort: "Int"}
+				if u.restricted() && !u.writeAllowed(pt) {
+					panic(abortUnit{"write set: calls " + name + ", which writes through " + ptr})
+				}
+				// which heap: find the boxed pointer's element type from the tag
+				for _, al := range s.allocTypes {
+					if al.ptr == ptr {
+						nv := u.freshT("mod."+it, al.elem)
+						saved := u.fc
+						u.fc = nil
+						u.store(s, AddrDeref{pt, al.elem}, nv)
+						u.fc = saved
+					}
+				}
+			}
+			u.copyBackInterior(s)
+		} else if mods := fc.modifies(); len(mods) > 0 {
 			// the callee writes only through the listed pointer parameters
 			for _, m := range mods {
 				a, ok := names[m]
@@ -485,6 +558,9 @@ func (u *Unit) applyContract(s *State, fc *FuncContract, callee *ssa.Function, n
 				u.usedBounded[c.Label+" ("+short+")"] = c.Callee
 			}
 			if !fc.Lib && c.Kind == "ensures" {
+				if u.p.noExport[labelWithFn(c.Label, short)] {
+					continue // open known finding: the clause does not hold, so callers must not assume it
+				}
 				u.usedEnsures[labelWithFn(c.Label, short)] = true
 			}
 			if !ghostsKnown(c.Expr, s) {
@@ -872,3 +948,5 @@ func (u *Unit) expandVariadic(s *State, c *ssa.CallCommon, args []Term) ([]Term,
 	}
 	return ex, true
 }
+
+var ifacePtrRe = regexp.MustCompile(`^\(mk_iface \S+ \(box\.Int (\S+)\)\)$`)
